@@ -614,6 +614,8 @@ class G:
                     n, pad = (0, -1) if lw >= 0 else (0, -1)
                 elif r.random() < 0.3:
                     n = lim
+                elif r.random() < 0.1 and lim + extra + 1 <= conn.max_outbound_frame_size:
+                    n = lim + 1                # one octet more than the windows allow, in a frame of permitted size
                 else:
                     n = min(lim, r.choice([1, 2, 3, 5, 10, 100, 1000, 16384, r.randrange(1, 70)]))
                 return {'op': 'data', 'sid': t['sid'], 'n': max(n, 0), 'tag': r.choice('AB'), 'es': r.random() < 0.15, 'pad': pad}
@@ -714,6 +716,8 @@ class G:
                         return {'t': 'PING', 'ack': False, 'tag': 'A'}
                 elif r.random() < 0.3:
                     n = lim
+                elif r.random() < 0.1 and lim + extra + 1 <= conn.max_inbound_frame_size:
+                    n = lim + 1                # one octet over the advertised window, in a frame of permitted size
                 else:
                     n = min(lim, r.choice([0, 1, 2, 3, 4, 10, 100, 1000, 16384, r.randrange(0, 70)]))
                 self.unacked[x][t['sid']] = self.unacked[x].get(t['sid'], 0) + n + extra
